@@ -206,7 +206,10 @@ func ObsRef[T any](p *Profile, m Ref[T], show func(T) string) string {
 		}
 		v, k, ns := m(s)
 		if k != 0 {
-			b.WriteString("F" + strconv.Itoa(FailName(k)))
+			if p == ProfTry || p == ProfStatet { // failures carrying error values
+				k = FailName(k)
+			}
+			b.WriteString("F" + strconv.Itoa(k))
 		} else {
 			b.WriteString("ok(" + show(v) + ")")
 		}
@@ -405,6 +408,8 @@ type Cas struct {
 	Prog   *Expr
 	Lprog  any
 	NIter  int  // Iterator operands built so far through IterOf (gcpull.go)
+	NGC    int  // forced double collections so far (at most MaxGCPerCase)
+	NPull  int  // pull-based operands built so far (at most MaxPullPerCase per case)
 	GCObs  bool // a pull-based operand was built: observers force a collection mid-consumption
 }
 
